@@ -83,6 +83,21 @@ def f(x, y):
 ''', '''
 @fp.fpy
 def f(x, y):
+    xs = range(1, 6)
+    s = xs[2] + xs[0]
+    xs[2] = x * 10
+    for e in xs:
+        s = s + e
+    ys = range(4)
+    s = s + ys[0]
+    ys[0] = y
+    zs = [x, y, 3]
+    ws = zs[0:2]
+    ws[0] = s
+    return (s, ys, range(1, 6), zs, [i * 2 for i in range(3)])
+''', '''
+@fp.fpy
+def f(x, y):
     with fp.MPSFloatContext(5, -8, fp.RM.RTO):
         a = fp.log1p(abs(x)) + fp.expm1(y / 8)
     with fp.REAL:
